@@ -273,6 +273,11 @@ Definition fsm_event (d : fsmdef) (i : inst) (s0 : fstate) (e : etype) (t : tag)
       match r with
       | (s2, Some k) => (st_abort s2, Err k)
       | (s2, None) =>
+          match f_next s2 with
+          | Some _ => (st_abort s2, Err EOther)   (* assert self._next_event is None: a chained
+                                                     request left over by an entry action that
+                                                     failed later with an unknown event type *)
+          | None =>
           match chain (chain_limit d) d i s2 t nxt with
           | (s3, Some EUnknownEvent) => (s3, Err EUnknownEvent)
           | (s3, Some k) => (st_abort s3, Err k)
@@ -286,6 +291,7 @@ Definition fsm_event (d : fsmdef) (i : inst) (s0 : fstate) (e : etype) (t : tag)
                    Ok true)
               | None => (s3, Ok true)
               end
+          end
           end
       end
   end.
